@@ -96,6 +96,7 @@ func cmdCheck(args []string) int {
 		}
 		cfg.seed = seed
 		cfg.Stall = hs.Stall
+		cfg.TimeFixed = hs.TimeFixed
 		if hs.Stall && hs.Steps == 0 {
 			cfg.StepBudget = 600000
 		}
